@@ -8,6 +8,7 @@ import (
 	"time"
 
 	"mellium.im/xmpp"
+	"mellium.im/xmpp/internal/wskey"
 	"mellium.im/xmpp/jid"
 	"mellium.im/xmpp/stream"
 
@@ -24,6 +25,7 @@ type env struct {
 	Lib  *bufconn.Conn
 	Opts sess.Opts
 	done func() // releases the transports
+	feed func() // own-request cases: the input is held back until feed is called
 }
 
 func xmlText(s string) string { return esc(s) }
@@ -103,6 +105,53 @@ func newEnv(c *core.Case, sc Scenario, input string) (*env, bool) {
 			return nil, false
 		}
 		return &env{S: s, Lib: lib, Opts: o, done: func() { peer.Close(); lib.Close() }}, true
+	}
+	if sc.WSFlag && sc.Addr == "" {
+		// sess.Ready with the context key that websocket.Negotiator sets
+		probe, err := sess.NewPair(o)
+		if err != nil {
+			c.Count("setup_failed", 1)
+			return nil, false
+		}
+		o = probe.Opts
+		probe.Peer.Close()
+		probe.Lib.Close()
+		local, err1 := jid.Parse(o.Local)
+		remote, err2 := jid.Parse(o.Remote)
+		if err1 != nil || err2 != nil {
+			c.Inconclusive("bad addresses %q %q", o.Local, o.Remote)
+			return nil, false
+		}
+		lib, peer := bufconn.Pipe()
+		peer.Write([]byte(sess.Header(o) + input))
+		peer.CloseWrite()
+		st := o.State
+		if o.S2S {
+			st |= xmpp.S2S
+		}
+		ctx, cancel := context.WithTimeout(context.WithValue(context.Background(), wskey.Key{}, struct{}{}), 20*time.Second)
+		defer cancel()
+		var s *xmpp.Session
+		if o.Received {
+			s, err = xmpp.NewSession(ctx, local, remote, lib, st|xmpp.Received, sess.NopNegotiator(o))
+		} else {
+			s, err = xmpp.NewSession(ctx, remote, local, lib, st, sess.NopNegotiator(o))
+		}
+		if err != nil {
+			c.Inconclusive("ws-flag: session setup failed: %v", err)
+			return nil, false
+		}
+		c.Count("session_flagged_websocket", 1)
+		return &env{S: s, Lib: lib, Opts: o, done: func() { peer.Close(); lib.Close() }}, true
+	}
+	if sc.OwnReq != nil && sc.Addr == "" {
+		p, err := sess.NewPair(o)
+		if err != nil {
+			c.Count("setup_failed", 1)
+			return nil, false
+		}
+		return &env{S: p.S, Lib: p.Lib, Opts: p.Opts, done: func() { p.Peer.Close(); p.Lib.Close() },
+			feed: func() { p.Send(input); p.Peer.CloseWrite() }}, true
 	}
 	switch sc.Addr {
 	case "", "update-ready":
